@@ -162,8 +162,16 @@ def run(c, index, tier):
         if "n_jobs" in cfg1:
             cfg1["n_jobs"] = None
         x = spec.build(cfg1)
-        argsA, kwA = spec.fit_args(A, cfg1)
+        # ... on other data, or on the very same data (a grid search fits its
+        # candidates on one training set: a memo keyed on the data alone, or on
+        # an abbreviated description of the parameters, would answer with the
+        # previous candidate's model)
+        same_data = ch.boolean("w", 0.4, "first-fit-on-the-same-data")
+        argsA, kwA = spec.fit_args(B if same_data else A, cfg1)
         c.scenario["first_config"] = {k: repr(v) for k, v in cfg1.items()}
+        c.scenario["first_fit_on_the_same_data"] = same_data
+        if same_data:
+            c.probe("reconfigured_and_refitted_on_the_same_data")
     else:
         x = spec.build(cfg)
     _env(c, g)
